@@ -23,6 +23,10 @@ type gStep struct {
 	Succ    []gOp
 	Fail    []gOp
 	Reopen  int // 0 close+open, 1 snapshot->snapshot, 2 checkpoint->checkpoint, 3 snapshot->checkpoint-configured, 4 checkpoint->snapshot-configured
+	// Late (transfer kinds only): the saver applies the NEXT apply batch between PrepareSnapshot and SaveSnapshot (what
+	// dragonboat's concurrent snapshotting does); the receiver still gets the state at the cut and replays that batch.
+	// Not part of the model step: a transfer is the identity there whenever the stream is taken.
+	Late []gEntry
 }
 
 func (s gStep) coq() string {
@@ -216,10 +220,15 @@ func (r *realFSM) indices() (uint64, uint64, error) {
 }
 
 // transfer saves a snapshot of r and recovers it into a fresh instance configured with dstType.
-func (r *realFSM) transfer(dstType fsm.SnapshotRecoveryType) (*realFSM, error) {
+func (r *realFSM) transfer(dstType fsm.SnapshotRecoveryType, late []gEntry) (*realFSM, error) {
 	ctx, err := r.f.PrepareSnapshot()
 	if err != nil {
 		return nil, err
+	}
+	if len(late) > 0 {
+		if _, _, err := r.apply(late); err != nil {
+			return nil, err
+		}
 	}
 	var buf bytes.Buffer
 	if err := r.f.SaveSnapshot(ctx, &buf, nil); err != nil {
@@ -238,7 +247,7 @@ func (r *realFSM) transfer(dstType fsm.SnapshotRecoveryType) (*realFSM, error) {
 	return dst, nil
 }
 
-func (r *realFSM) reopen(kind int) (*realFSM, error) {
+func (r *realFSM) reopen(kind int, late []gEntry) (*realFSM, error) {
 	switch kind {
 	case 0:
 		r.close()
@@ -255,7 +264,7 @@ func (r *realFSM) reopen(kind int) (*realFSM, error) {
 		if _, err := r.open(); err != nil {
 			return nil, err
 		}
-		dst, err := r.transfer(dstT)
+		dst, err := r.transfer(dstT, late)
 		if err != nil {
 			return nil, err
 		}
@@ -328,7 +337,7 @@ func runStep(f *realFSM, s gStep) (o string, nf *realFSM, err error) {
 		}
 		return oL(oU(a), oU(b)), f, nil
 	default:
-		g, err := f.reopen(s.Reopen)
+		g, err := f.reopen(s.Reopen, s.Late)
 		if err != nil {
 			return "", f, err
 		}
